@@ -185,6 +185,17 @@ class KernelTranslator:
                     if c[0] != 'cmp':
                         raise U("np.where condition that is not a comparison")
                     return ('where', c, self.expr(n.args[1], scope), self.expr(n.args[2], scope))
+                if f.attr == 'asarray':
+                    # np.asarray(c, dtype=<name>.dtype): the constant c taken in the dtype of an array -- over R the identity embedding of c
+                    if len(n.args) != 1 or len(n.keywords) != 1 or n.keywords[0].arg != 'dtype':
+                        raise U("np.asarray call shape")
+                    d = n.keywords[0].value
+                    if not (isinstance(d, ast.Attribute) and d.attr == 'dtype' and isinstance(d.value, ast.Name) and d.value.id in scope):
+                        raise U("np.asarray dtype argument (must be <name>.dtype)")
+                    if not (isinstance(n.args[0], ast.Constant) or (isinstance(n.args[0], ast.Name) and n.args[0].id in self.consts)):
+                        raise U("np.asarray of something that is not a constant")
+                    self.notes.append("np.asarray(c, dtype=x.dtype) read as c")
+                    return self.expr(n.args[0], scope)
                 if f.attr == 'ones':
                     # np.ones(shape, dtype=...) * grad : in the same-shape (scalar) reading this is the constant 1
                     if len(n.args) != 1 or not self.shape_like(n.args[0]) or any(k.arg != 'dtype' or not self.shape_like(k.value) for k in n.keywords):
